@@ -183,6 +183,8 @@ pub fn run(a: &Args, prop: &str) -> i32 {
         .map(|c| json!({"errors": c.compile_errors.iter().take(4).collect::<Vec<_>>(), "query": c.qtext, "options": c.opts.describe()})).collect();
     rep.extra.insert("not_compiling".into(), json!(not_compiling));
     rep.extra.insert("model_requests".into(), json!(u.ctx.model.requests));
+    // the derive / CLI entry point reads files: one query file with two schemas, names differing in a non-UTF-8 byte
+    path_entry_sequence(&mut rep, &u.ctx);
     finish_universe(u);
     rep.finish()
 }
